@@ -554,6 +554,10 @@ impl<S: Storage> Builder<S> {
             crate::verif::event("op.spawn", &detail);
         }
         let (tx, rx) = async_broadcast::broadcast(16);
+        // Deactivate the initial receiver before the task can run: a chunk broadcast while it is
+        // still active is dropped together with it (on a multi-thread runtime the task starts on
+        // another worker at once). With only inactive receivers the sender waits for a subscriber.
+        let rx = rx.deactivate();
         // If the task panics, tell the consumers instead of silently closing the channel,
         // which they would take for the end of the stream.
         struct PanicGuard(async_broadcast::Sender<Result<DataChunk>>);
@@ -593,7 +597,7 @@ impl<S: Storage> Builder<S> {
             .expect("failed to spawn task");
 
         StreamSubscriber {
-            rx: rx.deactivate(),
+            rx,
             handle: Arc::new(AbortOnDropHandle(handle)),
         }
     }
